@@ -2282,7 +2282,7 @@ class CiscoConfParse(object):
         # Explicitly handle all brace-parsing factory syntax here...
         ######################################################################
         if syntax == "junos":
-            config_lines = convert_junos_to_ios(tmp_lines,
+            config_lines = convert_junos_to_ios(list(tmp_lines),
                                                 comment_delimiters=["#"],
                                                 ignore_blank_lines=self.ignore_blank_lines)
         elif syntax in ALL_VALID_SYNTAX:
